@@ -16,7 +16,7 @@ from vivarium.core.types import (
     Processes, Topology, HierarchyPath, State, Schema, Steps, Flow)
 from vivarium.library.datum import Datum
 from vivarium.library.dict_utils import (
-    deep_merge, deep_merge_check, deep_copy_internal)
+    deep_merge, deep_merge_check, deep_copy_internal, _copy_nested_dicts)
 from vivarium.library.topology import inverse_topology
 
 
@@ -229,11 +229,11 @@ class Composite(Datum):
 
         # (the loose arguments too: their nested dictionaries stay the
         # caller's)
-        deep_merge(merge_processes, deep_copy_internal(processes))
-        deep_merge(merge_topology, deep_copy_internal(topology))
-        deep_merge(merge_steps, deep_copy_internal(steps))
-        deep_merge(merge_flow, deep_copy_internal(flow))
-        deep_merge(merge_state, deep_copy_internal(state))
+        deep_merge(merge_processes, _copy_nested_dicts(processes))
+        deep_merge(merge_topology, _copy_nested_dicts(topology))
+        deep_merge(merge_steps, _copy_nested_dicts(steps))
+        deep_merge(merge_flow, _copy_nested_dicts(flow))
+        deep_merge(merge_state, _copy_nested_dicts(state))
         merge_processes = assoc_in({}, path, merge_processes)
         merge_topology = assoc_in({}, path, merge_topology)
         merge_steps = assoc_in({}, path, merge_steps)
